@@ -201,6 +201,16 @@ theorem whitespace_only_text (s : Str) (hw : s.all isSpace = true) (a b : Bool) 
   have hr0 : rstrip ([] : Str) = [] := rfl
   cases a <;> cases b <;> simp [applyStrip, hl s hw, hr, hr0]
 
+/-! ## token start offsets (used by C20) -/
+
+/-- **Start offsets.** Every `tag`, `expression` and `output` token the lexer yields for a source assembled from
+pieces is, character for character, the slice of that source beginning at the token's `start_index` — for every
+delimiter set, padding and marker combination, inside or after block comments. -/
+theorem tokens_start_in_source (d : Delims) (ps : List Piece) (ts : List Token) (h : lexPieces d ps = .ok ts) :
+    ∀ t ∈ ts, t.sliced = true → t.inSrc (assemble d ps) := by
+  have := tokenize_slice d ps [] {} ts h
+  simpa using this
+
 /-! ## non-vacuity: the hypotheses are met by concrete templates, including the two inputs that failed
 before the `fix:` commits -/
 
